@@ -409,6 +409,10 @@ class Normalizer(object):
         if params is None and isinstance(e.func, ast.Attribute) and e.args and not any(isinstance(a, ast.Starred) for a in e.args) \
                 and e.func.attr in METHOD_SIGS and not (d and d.split('.')[0] in MODULE_ROOTS):
             params = METHOD_SIGS[e.func.attr]
+        if params is None and d is None and isinstance(e.func, ast.Attribute) and e.args and not any(isinstance(a, ast.Starred) for a in e.args) \
+                and e.func.attr in REPO_SIGS and not e.func.attr.startswith('_'):
+            # a method of the package (its name is defined once in it) called on a computed receiver: samples[k].hist_bins(...)
+            params = REPO_SIGS[e.func.attr]
         pos_args = list(e.args)
         extra_kw = []
         if params is not None and len(pos_args) <= len(params) and not (set(params[:len(pos_args)]) & {k.arg for k in e.keywords}):
@@ -845,10 +849,26 @@ def _unify(pat, term, binding, metas, depth=0):
         if pat and pat[0] in AC_HEADS and term[0] == pat[0]:
             if pat[0] in ('add', 'mul'):
                 po, to = pat[1], term[1]
-                if len(po) != len(to):
-                    return
-                for b in _unify_perm(list(po), list(to), binding, metas):
-                    yield b
+                found = False
+                if len(po) == len(to):
+                    for b in _unify_perm(list(po), list(to), binding, metas):
+                        found = True
+                        yield b
+                if not found and depth < 6:
+                    # a temporary for part of the sum / product (`h = f / 2` ... `1 - h`): written out, the operand merges
+                    # into this sum / product
+                    for i_, t_ in enumerate(to):
+                        if isinstance(t_, tuple) and len(t_) == 2 and t_[0] == 'var':
+                            cd = getattr(metas, 'cdefs', {}).get(t_[1])
+                            if isinstance(cd, tuple) and cd and cd[0] in ('add', 'mul', 'num', 'pow'):
+                                rest = list(to[:i_]) + [cd] + list(to[i_ + 1:])
+                                try:
+                                    nt = mk_add(rest) if pat[0] == 'add' else mk_mul(rest)
+                                except Exception:
+                                    continue
+                                if nt != term:
+                                    for b in _unify(pat, nt, binding, metas, depth + 1):
+                                        yield b
                 return
             po, to = list(pat[1:]), list(term[1:])
             if len(po) == 1 and isinstance(po[0], tuple) and po[0] and not isinstance(po[0][0], str):
